@@ -672,7 +672,16 @@ class SmallSet {
   }
 
   void grow() {
-    _set.insert(std::make_move_iterator(_vec.begin()), std::make_move_iterator(_vec.end()));
+    try {
+      _set.insert(std::make_move_iterator(_vec.begin()), std::make_move_iterator(_vec.end()));
+    } catch (...) {
+      // Some elements may already have been moved to the set: move them back to the (moved-from) first slots of the
+      // small container (which is not ordered), to stay small with all our elements.
+      for (miterator it = _vec.begin(); !_set.empty(); ++it) {
+        *it = std::move(_set.extract(_set.begin()).value());
+      }
+      throw;
+    }
     _vec.clear();
   }
 
